@@ -652,6 +652,8 @@ enum GroupKeyPart {
     Null,
     Bool(bool),
     Int64(i64),
+    /// A float key, by bit pattern (floats are not `Eq`/`Hash`).
+    Float64(u64),
     String(String),
 }
 
@@ -668,7 +670,7 @@ impl GroupKey {
                         Value::Null => GroupKeyPart::Null,
                         Value::Bool(b) => GroupKeyPart::Bool(b),
                         Value::Int64(i) => GroupKeyPart::Int64(i),
-                        Value::Float64(f) => GroupKeyPart::Int64(f.to_bits() as i64),
+                        Value::Float64(f) => GroupKeyPart::Float64(f.to_bits()),
                         Value::String(s) => GroupKeyPart::String(s.to_string()),
                         _ => GroupKeyPart::String(format!("{v:?}")),
                     })
@@ -685,6 +687,7 @@ impl GroupKey {
                 GroupKeyPart::Null => Value::Null,
                 GroupKeyPart::Bool(b) => Value::Bool(*b),
                 GroupKeyPart::Int64(i) => Value::Int64(*i),
+                GroupKeyPart::Float64(bits) => Value::Float64(f64::from_bits(*bits)),
                 GroupKeyPart::String(s) => Value::String(s.clone().into()),
             })
             .collect()
